@@ -160,6 +160,7 @@ type pathEnum struct {
 	facts    []Fact
 	used     map[[2]int]int
 	loopIter int
+	target   *ssa.BasicBlock
 }
 
 // EnumPaths enumerates the paths of fn from its entry block. visit returns false to stop early.
@@ -171,6 +172,14 @@ func EnumPaths(fn *ssa.Function, max int, visit func(*Path) bool) (int, bool) {
 func EnumPathsFrom(fn *ssa.Function, start *ssa.BasicBlock, max, loopIter int, visit func(*Path) bool) (int, bool) {
 	e := &pathEnum{fn: fn, max: max, visit: visit, used: map[[2]int]int{}, loopIter: loopIter}
 	e.dfs(start)
+	return e.n, e.trunc
+}
+
+// EnumPathsPrefix enumerates the paths from the entry block to the block containing target (the path ends
+// with that block; rules look at the facts established before it).
+func EnumPathsPrefix(fn *ssa.Function, target ssa.Instruction, max int, visit func(*Path) bool) (int, bool) {
+	e := &pathEnum{fn: fn, max: max, visit: visit, used: map[[2]int]int{}, loopIter: 1, target: target.Block()}
+	e.dfs(fn.Blocks[0])
 	return e.n, e.trunc
 }
 
@@ -211,7 +220,10 @@ func (e *pathEnum) dfs(b *ssa.BasicBlock) {
 		e.facts = savedFacts
 	}()
 
-	if len(b.Succs) == 0 {
+	if e.target != nil && b != e.target && len(b.Succs) == 0 {
+		return
+	}
+	if len(b.Succs) == 0 || b == e.target {
 		e.succ = append(e.succ, -1)
 		e.emit()
 		e.succ = e.succ[:step]
